@@ -534,13 +534,28 @@ def _pipeline(ctx, pb, zn, zd, owners, style, case, nblocks, other):
         fname = names[tape.draw(len(names), "fork.op")]
         fop = ops.OPS[fname]
         pairs = []
+        # second branch: same input with other arguments, or (same arguments on) a DIFFERENT
+        # input derived from the same source -- constant task names collide in the latter case
+        other_input = tape.chance(1, 2, "fork.other_input")
+        fdesc0 = None
         for b in range(2):
+            in_n, in_d = cur_n, cur_d
+            if b == 1 and other_input:
+                try:
+                    in_n, in_d = cur_n * 2, cur_d * 2
+                    if type(in_n) is not type(cur_n):
+                        in_n, in_d = cur_n, cur_d
+                except Exception:
+                    in_n, in_d = cur_n, cur_d
             fdesc = fop.gen(tape, info)
+            if b == 1 and other_input and in_n is not cur_n and tape.chance(1, 2, "fork.sameargs"):
+                fdesc = fdesc0
+            fdesc0 = fdesc0 or fdesc
             try:
-                fan, fad = fop.prepare(pb, cur_n, fdesc), fop.prepare(pb, cur_d, fdesc)
-                frn = fop.call(pb, cur_n, fan, fdesc)
+                fan, fad = fop.prepare(pb, in_n, fdesc), fop.prepare(pb, in_d, fdesc)
+                frn = fop.call(pb, in_n, fan, fdesc)
                 with tripwire(trip):
-                    frd = fop.call(pb, cur_d, fad, fdesc)
+                    frd = fop.call(pb, in_d, fad, fdesc)
             except Exception:
                 break
             if trip:
